@@ -222,7 +222,9 @@ ValueCases(s, rk) ==
   \cup {Case("substring", rk, s, <<IArg(src, st)>>) : st \in Starts(s)}
   \cup {Case("substring", rk, s, <<IArg(src, st), IArg(src, n)>>) : st \in Starts(s), n \in Lens(s)}
   \cup {Case(f, rk, s, <<SArg(src, t)>>) : f \in PatternFns, t \in Patterns(s)}
-  \cup UNION {{Case("replace", rk, s, <<SArg(src, t), SArg(src, r)>>) : r \in Replacements(s, t)} : t \in Patterns(s)}
+  \cup UNION {{Case("replace", rk, s, <<SArg(src, t), SArg(src, r)>>) :
+                  r \in IF Len(s) > 3 /\ Find(s, t) < 0 THEN {<<233, 128512>>} ELSE Replacements(s, t)} : t \in Patterns(s)}
+       \* (an absent pattern leaves a long string alone whatever the substitution: one is enough)
 
 LawCases(s, rk) ==
   LET src == ArgSrc(rk) IN
@@ -270,7 +272,9 @@ KindAdmits(rk, s) == rk \in {"lit", "env"} \/ s # <<>>
 (*   literal receivers for every s (Len <= MaxLen is the model's choice),   *)
 (*   every other receiver kind when Len(s) <= kindLen,                      *)
 (*   regular-expression functions when Len(s) <= regexLen,                  *)
-(*   the odd receivers / arguments when Len(s) <= 1.                        *)
+(*   the odd receivers / arguments when Len(s) <= 1,                        *)
+(*   and, once (with the empty string's cases), the enum-backed code        *)
+(*   receiver Patient.gender = 'male'.                                      *)
 CasesOf(s, kindLen, regexLen) ==
        ValueCases(s, "lit") \cup LawCases(s, "lit")
   \cup (IF Len(s) <= kindLen
